@@ -447,12 +447,26 @@ def r3(ctx):
             uses = _uses_of_def(ana, fi, st_node, v)
             ok = True
             tests = {}
-            for u, at in uses:
+            work_ = list(uses)
+            hops_ = 0
+            while work_:
+                u, at = work_.pop()
                 if at.kind == "test":
                     tests[at.id] = at
-                else:
-                    ok = False
-                    detail = f"`{v}` used at line {u.lineno} outside a branch test"
+                    continue
+                # one hop: a flag computed from the value by comparisons / `and` / `or` / `not` / len() and itself only tested
+                a_ = at.ast if at.kind == "stmt" else None
+                flag = def_target(at) if a_ is not None and isinstance(a_, ast.Assign) else None
+                pure_flag = flag is not None and hops_ < 2 and all(
+                    isinstance(x, (ast.BoolOp, ast.boolop, ast.UnaryOp, ast.Not, ast.Compare, ast.cmpop, ast.Name, ast.Constant, ast.Load, ast.expr_context))
+                    or (isinstance(x, ast.Call) and isinstance(x.func, ast.Name) and x.func.id in ("len", "bool"))
+                    for x in ast.walk(a_.value))
+                if pure_flag:
+                    hops_ += 1
+                    work_ += _uses_of_def(ana, fi, at, flag)
+                    continue
+                ok = False
+                detail = f"`{v}` used at line {u.lineno} outside a branch test"
             # statements controlled by those tests may only choose the pool size, log, or return a pool
             for t in tests.values():
                 for sub in ast.walk(t.ast):
